@@ -39,7 +39,7 @@ fn families(t: Tier) -> Vec<(&'static str, u64)> {
     vec![("training", t.n(2_500, 250_000)), ("disturbed", t.n(1_500, 150_000))]
 }
 fn floors(_t: Tier) -> Vec<(&'static str, u64)> {
-    vec![("evaluations", 400), ("iterations_checked", 1_500), ("parameter_gradients_compared", 4_000), ("conv_histories", 60), ("batched_histories", 150), ("disturbed_iterations_checked", 600), ("frozen_parameters_checked", 150), ("iterations_after_abandoned_forward", 150), ("iterations_after_parameter_edit", 100), ("iterations_with_forward_before_update", 150), ("histories_with_user_defined_layers", 200), ("backward_calls_after_update_checked", 100)]
+    vec![("evaluations", 400), ("iterations_checked", 1_500), ("parameter_gradients_compared", 4_000), ("conv_histories", 60), ("batched_histories", 150), ("disturbed_iterations_checked", 600), ("frozen_parameters_checked", 150), ("iterations_after_abandoned_forward", 150), ("iterations_after_parameter_edit", 100), ("iterations_with_forward_before_update", 150), ("histories_with_user_defined_layers", 200), ("backward_calls_after_update_checked", 100), ("iterations_with_model_rebuilt_before_update", 150), ("iterations_with_the_model_applied_twice", 40)]
 }
 
 pub fn run_case(ctx: &mut Ctx, fam: &str, _k: u64, r: &mut Rng) {
@@ -102,7 +102,21 @@ pub fn run_case(ctx: &mut Ctx, fam: &str, _k: u64, r: &mut Rng) {
                 iterations[t].late_forward = Some(gen_input(r, &s, false));
                 notes.push(format!("{}:forward-between-backward-and-update", t));
             }
-            if late_backward_history && r.chance(1, 4) && iterations[t].late_forward.is_none() {
+            // the model dropped after backward, a new one over the same layers calls update
+            if r.chance(1, 6) && iterations[t].late_forward.is_none() {
+                iterations[t].rebuild_before_update = true;
+                notes.push(format!("{}:model-rebuilt-between-backward-and-update", t));
+            }
+            // the model applied to its own output (needs an output of the input's dimensions)
+            if r.chance(1, 3) {
+                if let Some((o1, _)) = forward_ref::<f64>(&spec, &params0, &iterations[t].input) {
+                    if o1.dims == iterations[t].input.dims && forward_ref::<f64>(&spec, &params0, &o1).map(|x| x.0.dims == o1.dims).unwrap_or(false) {
+                        iterations[t].twice = true;
+                        notes.push(format!("{}:forward(forward(x))", t));
+                    }
+                }
+            }
+            if late_backward_history && r.chance(1, 4) && iterations[t].late_forward.is_none() && !iterations[t].rebuild_before_update {
                 iterations[t].late_backward = true;
                 notes.push(format!("{}:backward-again-after-update", t));
             }
@@ -174,16 +188,22 @@ pub fn run_case(ctx: &mut Ctx, fam: &str, _k: u64, r: &mut Rng) {
     ctx.meta(|| format!("{} outs={:?}", desc, run.outputs.iter().map(|o| o.dims.clone()).collect::<Vec<_>>()));
     // split events per iteration
     let nl = spec.layers.len();
-    let per = nl + 1;
-    if run.events.len() != per * n_iter {
-        ctx.violation("C14|event-count", format!("expected {} boundary events ({} forward + 1 update per iteration), saw {}\n{}", per * n_iter, nl, run.events.len(), desc));
+    // an iteration is `apps * nl` forward events (the model may be applied to its own output) and one update
+    let pers: Vec<usize> = iterations.iter().map(|it| nl * if it.twice { 2 } else { 1 } + 1).collect();
+    let expected_events: usize = pers.iter().sum();
+    if run.events.len() != expected_events {
+        ctx.violation("C14|event-count", format!("expected {} boundary events ({} forward per application + 1 update per iteration), saw {}\n{}", expected_events, nl, run.events.len(), desc));
         return;
     }
+    let mut ev_at = 0usize;
     ctx.count("boundary_events_observed", run.events.len() as u64);
     let mut prev_after: Option<Vec<Obs>> = None;
     for (t, it) in iterations.iter().enumerate() {
-        let evs = &run.events[t * per..(t + 1) * per];
-        let (before, after) = match &evs[nl] {
+        let per = pers[t];
+        let evs = &run.events[ev_at..ev_at + per];
+        ev_at += per;
+        let apps = if it.twice { 2 } else { 1 };
+        let (before, after) = match &evs[per - 1] {
             Ev::Update { before, after } => (before, after),
             _ => {
                 ctx.violation("C14|event-order", format!("iteration {}: the last event is not an update\n{}", t, desc));
@@ -227,7 +247,13 @@ pub fn run_case(ctx: &mut Ctx, fam: &str, _k: u64, r: &mut Rng) {
                 return;
             }
         }
-        let (loss, grads, scales, kink) = match loss_and_grads(&spec, &pb, &it.input, &it.target) {
+        if it.twice {
+            ctx.count("iterations_with_the_model_applied_twice", 1);
+        }
+        if it.rebuild_before_update {
+            ctx.count("iterations_with_model_rebuilt_before_update", 1);
+        }
+        let (loss, grads, scales, kink) = match loss_and_grads_n(&spec, &pb, &it.input, &it.target, apps) {
             Some(x) => x,
             None => {
                 ctx.count("reference_rejected_iteration", 1);
@@ -235,7 +261,7 @@ pub fn run_case(ctx: &mut Ctx, fam: &str, _k: u64, r: &mut Rng) {
             }
         };
         // model output = composition on current parameters
-        let (out_ref, _) = forward_ref::<f64>(&spec, &pb, &it.input).unwrap();
+        let (out_ref, _) = forward_ref_n::<f64>(&spec, &pb, &it.input, apps).unwrap();
         // a diverging run (large learning rate on an unbounded net) leaves the in-domain value range: stop observing
         let pmax = pb.iter().map(|p| p.max_abs()).fold(0.0f64, f64::max);
         // saturation: once a pre-activation leaves [-100, 100] the exponentials of sigmoid/softmax (and the squares in
